@@ -46,7 +46,8 @@ theorem smallRel_single (tol a d : Rat) (ha : 0 < a) (hd : 0 < d) (ht : 0 < tol)
 /-- one accumulating variable `y ↦ y + d` (d > 0) from `y0 > 0`, relative criterion: the copying loop with a budget of
 `K + 1` steps fails exactly when the relative step is still at or above the tolerance at the LAST comparison -/
 theorem rel_accumulation_none_iff (d y0 tol : Rat) (hd : 0 < d) (hy : 0 < y0) (ht : 0 < tol) (K : Nat) :
-    ssRun true (fun y => List.zipWith (· + ·) y [d]) (smallRel tol) (K + 1) [y0] = .noSteadyState ↔
+    ssRun true true (fun y => List.zipWith (· + ·) y [d]) (fun _ => true) (smallRel tol) (K + 1) [y0]
+        = .noSteadyState ↔
       tol * (y0 + (K : Rat) * d) ≤ d := by
   unfold ssRun
   rw [ssLoop_copy_none]
@@ -59,10 +60,11 @@ theorem rel_accumulation_none_iff (d y0 tol : Rat) (hd : 0 < d) (hy : 0 < y0) (h
     simpa using smallRel_single tol (y0 + (m : Rat) * d) d ha hd ht
   constructor
   · intro h
-    have := h K (Nat.lt_succ_self K)
+    have := (h K (Nat.lt_succ_self K)).2
     rw [key] at this
     simpa using this
   · intro h m hm
+    refine ⟨rfl, ?_⟩
     rw [key]
     have hmK : (m : Rat) ≤ (K : Rat) := by exact_mod_cast Nat.lt_succ_iff.mp hm
     have : tol * (y0 + (m : Rat) * d) ≤ tol * (y0 + (K : Rat) * d) := by
